@@ -2,7 +2,7 @@
    Model: coq/cov/CovModel.v (coverage.cc + the words of builtin-aset.cc).
    Only property statements here; each closed by `exact <lemma>`. *)
 From Coq Require Import ZArith List Bool Lia.
-From Dwgrep Require Import CovModel CovProofs.
+From Dwgrep Require Import CovModel CovProofs CovProofs2.
 Import ListNotations.
 Local Open Scope Z_scope.
 
@@ -43,6 +43,47 @@ Theorem C16_cmp_eq_iff_same_set : forall a b, Inv a -> Inv b ->
   (w_cmp a b = Eq <-> forall x, mem a x <-> mem b x).
 Proof. exact cmp_eq_iff_same_set. Qed.
 Print Assumptions C16_cmp_eq_iff_same_set.
+
+(* is_covered / is_overlap are the set predicates *)
+Theorem C16_is_covered : forall c s l, Inv c -> 0 <= s -> 0 < l -> s + l < 2^64 ->
+  (is_covered c s l = true <-> forall x, s <= x < s + l -> mem c x).
+Proof. exact is_covered_ok. Qed.
+Print Assumptions C16_is_covered.
+
+Theorem C16_is_overlap : forall c s l, Inv c -> 0 <= s -> 0 < l -> s + l < 2^64 ->
+  (is_overlap c s l = true <-> exists x, s <= x < s + l /\ mem c x).
+Proof. exact is_overlap_ok. Qed.
+Print Assumptions C16_is_overlap.
+
+(* remove is set difference with the interval (and says whether anything was removed) *)
+Theorem C16_remove : forall c s l, Inv c -> 0 <= s -> 0 < l -> s + l < 2^64 ->
+  Inv (snd (remove c s l)) /\
+  (forall x, mem (snd (remove c s l)) x <-> mem c x /\ ~ (s <= x < s + l)) /\
+  (fst (remove c s l) = true <-> exists x, s <= x < s + l /\ mem c x).
+Proof. exact remove_ok. Qed.
+Print Assumptions C16_remove.
+
+(* intersect is intersection with the interval *)
+Theorem C16_intersect : forall c s l, Inv c -> 0 <= s -> 0 < l -> s + l < 2^64 ->
+  Inv (intersect c s l) /\ (forall x, mem (intersect c s l) x <-> mem c x /\ s <= x < s + l).
+Proof. exact intersect_ok. Qed.
+Print Assumptions C16_intersect.
+
+(* the words on two address sets: difference, intersection, subset, meets *)
+Theorem C16_sub : forall a b, Inv a -> Inv b ->
+  Inv (w_sub a b) /\ forall x, mem (w_sub a b) x <-> mem a x /\ ~ mem b x.
+Proof. exact w_sub_ok. Qed.
+Theorem C16_overlap : forall a b, Inv a -> Inv b ->
+  Inv (w_overlap a b) /\ forall x, mem (w_overlap a b) x <-> mem a x /\ mem b x.
+Proof. exact w_overlap_ok. Qed.
+Theorem C16_contains : forall a b, Inv a -> Inv b -> (w_contains a b = true <-> forall x, mem b x -> mem a x).
+Proof. exact w_contains_ok. Qed.
+Theorem C16_overlaps : forall a b, Inv a -> Inv b -> (w_overlaps a b = true <-> exists x, mem a x /\ mem b x).
+Proof. exact w_overlaps_ok. Qed.
+Print Assumptions C16_sub.
+Print Assumptions C16_overlap.
+Print Assumptions C16_contains.
+Print Assumptions C16_overlaps.
 
 Example C16_nonvacuous :
   Inv [(0, 2); (5, 5)] /\ add [(0, 2); (5, 5)] 2 3 = [(0, 10)]
